@@ -13,6 +13,9 @@ checks = {
  "C02": ("exploration", "small-scope exhaustive enumeration of core-language programs, differential against a reference evaluator written in Go",
          "all depth-1 programs in 6 layout styles and all context chains of length 2 (thorough: 3, plus full depth-2 trees) over 59 contexts and 10 leaves are run on a fresh real interpreter and on the reference evaluator R1; value, error and the order of traced host calls must agree",
          "trusts R1 as the specification of the core language; programs R1 declines are skipped and counted; bounded size", "§3 C02"),
+ "C09": ("exploration", "small-scope exhaustive enumeration of tail-recursive function shapes: differential against a reference evaluator without tail calls + stack high-water marks over growing depths",
+         "every composition of 9 tail contexts to nesting depth 2 (thorough 3; scope-opening contexts to 4/5), the recursive call also in 9 non-tail positions, x 12 body kinds; value/effects/closure observations equal the reference evaluator for depths 0..10, and the VM stack high-water marks are identical for depths 10/60/300 (thorough 10/100/1000/100000)",
+         "trusts R1 as the un-optimised semantics; high-water marks sampled in a pre-call hook via the verif accessor", "§3 C09"),
 }
 all_ids = ["C%02d" % i for i in range(1, 21)]
 pending = {i: "check not built yet in this tree (see DESIGN.md §7 build order); will be claimed when its machinery lands" for i in all_ids if i not in checks}
